@@ -44,12 +44,19 @@ type vsCfg struct {
 	typ    byte
 	events []event
 	byVote map[*types.Vote]int
+	blocks []int // block-id alphabet: blocks[0] = A, blocks[1] = its main competitor, ..., nil last
 	name   string
 }
 
 func newVSCfg(w *world, typ byte, blocks []int, fullInvalid bool) *vsCfg {
 	c := &vsCfg{w: w, typ: typ, byVote: map[*types.Vote]int{}}
-	c.name = fmt.Sprintf("voteset/%s/type%d", w.String(), typ)
+	var bn []string
+	for _, b := range blocks {
+		bn = append(bn, idName[b])
+	}
+	c.name = fmt.Sprintf("voteset/%s/type%d/ids=%s", w.String(), typ, strings.Join(bn, ","))
+	c.blocks = blocks
+	alt := blocks[1] // the block id that competes with A
 	otherTyp := types.VoteTypePrevote
 	if typ == types.VoteTypePrevote {
 		otherTyp = types.VoteTypePrecommit
@@ -89,7 +96,7 @@ func newVSCfg(w *world, typ byte, blocks []int, fullInvalid bool) *vsCfg {
 		full bool
 	}{ // the part of the name before the first '-' or '@' is not a category; categories are derived in category()
 		{"A-bad-sig", func(i int, d *vdesc) { d.corrupt = true }, false},
-		{"B-bad-sig", func(i int, d *vdesc) { d.corrupt = true; d.block = idB }, false},
+		{"B-bad-sig", func(i int, d *vdesc) { d.corrupt = true; d.block = alt }, false},
 		{"A-sig-of-other-validator", func(i int, d *vdesc) { d.signer = other(w, i, 0) }, false},
 		{"A-other-chain", func(i int, d *vdesc) { d.chain = otherChain }, false},
 		{"A@H+1", func(i int, d *vdesc) { d.height = H + 1 }, false},
@@ -622,6 +629,19 @@ func (c *vsCfg) checkState(vs *types.VoteSet, m *model, prevMaj int) (string, st
 	for p, blk := range m.peers {
 		if id, ok := snap.Peers[p]; !ok || !id.Equals(blockIDs[blk]) {
 			return "voteset:model-divergence:peer-claims", "recorded peer claims differ from the reference"
+		}
+	}
+	// the public per-block view, asked by the FULL block id
+	for _, blk := range c.blocks {
+		bb := vs.BitArrayByBlockID(blockIDs[blk])
+		mb := m.blocks[blk]
+		if (bb == nil) != (mb == nil) {
+			return "voteset:model-divergence:BitArrayByBlockID", fmt.Sprintf("BitArrayByBlockID(%s) nil=%v, reference has a tally=%v", idName[blk], bb == nil, mb != nil)
+		}
+		for v := 0; mb != nil && v < w.n; v++ {
+			if _, voted := mb.voters[v]; bb.GetIndex(v) != voted {
+				return "voteset:model-divergence:BitArrayByBlockID", fmt.Sprintf("BitArrayByBlockID(%s) bit %d differs from the reference", idName[blk], v)
+			}
 		}
 	}
 	ba := vs.BitArray()
